@@ -21,7 +21,7 @@ structure St where
   cheld : List (Option (List Byte)) := []
   cwait : Option (List Requester.Slot) := none      -- con->_wait (handlers stay registered after a reply)
   ccid : Nat := 0
-  canswered : List Nat := []                         -- spec: ids that already got their reply
+  cpend : List (Nat × Nat) := []                     -- spec: (id, handler tag) of requests that still wait for their reply
   -- requester side (C++ io::stream)
   xr : Option Requester.St := none
   xs : ReplySpec.ReqSt := {}
@@ -183,13 +183,39 @@ def specConReq (idlen : Nat) (nh : Nat) (data : List Byte) (acts : List Act) : S
     let frames := if ctx ∧ r.2.1 = 0 then r.2.2 ++ [ReplySpec.mark id ++ [1, argByte retv]] else r.2.2
     (s!"called=1 ctx={if ctx then 1 else 0} id=0 acts={",".intercalate r.1}", frames, if r.2.1 = 2 then some id else none)
 
+/-- the peer answers one of our requests on the connection (id with the reply mark): `mpt_command_get(&con->_wait,
+    id)`, call, release the handler (fix ea90a14); an undecodable id ends the dispatch (fix 9f09e6e).
+    Spec: the reply goes to the handler that waits for exactly this id, once. -/
+def conAnswer (st : St) (idlen : Nat) (data : List Byte) : St × String :=
+  let id := data.take idlen
+  let payload := data.drop idlen
+  let r0 := "called=0 ctx=0 id=0 acts=-"
+  -- spec
+  let srid := ReplySpec.decode (ReplySpec.unmarkS id)
+  let shit := srid.bind fun v => (st.cpend.find? (·.1 == v)).map (·.2)
+  let sC := match shit with
+    | some t => s!"hr{t}({toHex payload})"
+    | none => "-"
+  let cpend' := match srid, shit with
+    | some v, some _ => st.cpend.filter (·.1 != v)
+    | _, _ => st.cpend
+  -- model
+  match MsgId.buf2id (Reply.unmark id) with
+  | .ok (v, _) =>
+    match Requester.findActive (st.cwait.getD []) v with
+    | some t =>
+      ({ st with cwait := st.cwait.map (Requester.deactivate · v), cpend := cpend' },
+       s!"R {r0} | C hr{t}({toHex payload}) | I next=1 disp=0 | S {r0} ; {sC}")
+    | none => ({ st with cpend := cpend' }, s!"R {r0} | C - | I next=1 disp=131072 | S {r0} ; {sC}")
+  | _ => ({ st with cpend := cpend' }, s!"R {r0} | C - | I next=1 disp=131072 | S {r0} ; {sC}")
+
 def stepC (st : St) (w : List String) : St × String :=
   match w with
   | ["c", "open", n] =>
     match n.toNat? with
     | some idlen =>
       if idlen > 255 then (st, "bad-op") else
-      ({ st with sin := none, cw := some idlen, cc := none, clive := [], cheld := [], cwait := none, ccid := 0, canswered := [] },
+      ({ st with sin := none, cw := some idlen, cc := none, clive := [], cheld := [], cwait := none, ccid := 0, cpend := [] },
        "R ok | C - | I ret=0 | S ok ; -")
     | none => (st, "bad-op")
   | ["c", "req", h, "discard"] =>
@@ -200,17 +226,7 @@ def stepC (st : St) (w : List String) : St × String :=
       let id := data.take idlen
       let r0 := "called=0 ctx=0 id=0 acts=-"
       if idlen ≠ 0 ∧ data.length < idlen then (st, s!"R {r0} | C - | I next=1 disp=131072 | S {r0} ; -")
-      else if idlen ≠ 0 ∧ (id.headD 0).toNat ≥ 128 then
-        -- an answer to one of our requests is still routed to its handler
-        let rid : Option Nat := match MsgId.buf2id (Reply.unmark id) with
-          | .ok (v, _) => some v
-          | _ => none
-        match rid.bind (fun v => Requester.findActive (st.cwait.getD []) v), rid with
-        | some t, some v =>
-          let again := st.canswered.contains v
-          let sp := s!"{r0} ; hr{t}({toHex (data.drop idlen)})" ++ (if again then s!" || {r0} ; -" else "")
-          ({ st with canswered := v :: st.canswered }, s!"R {r0} | C hr{t}({toHex (data.drop idlen)}) | I next=1 disp=0 | S {sp}")
-        | _, _ => (st, s!"R {r0} | C - | I next=1 disp=131072 | S {r0} ; -")
+      else if idlen ≠ 0 ∧ (id.headD 0).toNat ≥ 128 then conAnswer st idlen data
       else if idlen ≠ 0 ∧ id.any (· ≠ 0) then
         match (st.cc <|> Reply.create idlen true) with
         | none => (st, "bad-op")
@@ -228,20 +244,7 @@ def stepC (st : St) (w : List String) : St × String :=
       let (sr, sf, sdef) := specConReq idlen st.clive.length data acts
       let id := data.take idlen
       let sTail := s!" | S {sr} ; {fmtFrames sf}"
-      if idlen ≠ 0 ∧ data.length ≥ idlen ∧ (id.headD 0).toNat ≥ 128 then
-        -- the peer answers one of our requests: mpt_command_get(&con->_wait, id) and call, the handler stays
-        let rid : Option Nat := match MsgId.buf2id (Reply.unmark id) with
-          | .ok (v, _) => some v
-          | _ => none       -- (the code goes on with an unset id; nothing is registered under it in these runs)
-        let hit := rid.bind fun v => Requester.findActive (st.cwait.getD []) v
-        let payload := data.drop idlen
-        match hit, rid with
-        | some t, some v =>
-          let again := st.canswered.contains v
-          let sp := s!"called=0 ctx=0 id=0 acts=- ; hr{t}({toHex payload})" ++ (if again then " || called=0 ctx=0 id=0 acts=- ; -" else "")
-          ({ st with canswered := v :: st.canswered },
-           s!"R called=0 ctx=0 id=0 acts=- | C hr{t}({toHex payload}) | I next=1 disp=0 | S {sp}")
-        | _, _ => (st, s!"R called=0 ctx=0 id=0 acts=- | C - | I next=1 disp=131072 | S called=0 ctx=0 id=0 acts=- ; -")
+      if idlen ≠ 0 ∧ data.length ≥ idlen ∧ (id.headD 0).toNat ≥ 128 then conAnswer st idlen data
       else if idlen ≠ 0 ∧ data.length < idlen then
         (st, s!"R called=0 ctx=0 id=0 acts=- | C - | I next=1 disp=131072{sTail}")
       else
@@ -291,9 +294,9 @@ def stepC (st : St) (w : List String) : St × String :=
       if st.ccid ≠ 0 then (st, "R refused | C - | I ret=BadOperation | S refused ; -") else
       match Requester.reserve st.cwait (Nat.min idlen 4) tag with
       | some (a, i) =>
-        let fresh := i ≥ 1 ∧ ReplySpec.fits i idlen ∧ !((Requester.active (st.cwait.getD [])).any fun e => e.id == i ∧ !st.canswered.contains i)
+        let fresh := i ≥ 1 ∧ ReplySpec.fits i idlen ∧ !(st.cpend.any fun e => e.1 == i)
         let sp := if fresh then s!"ok id={i} ; -" else "ok id=<an id no unanswered request uses> ; -"
-        ({ st with cwait := some a, ccid := i, canswered := st.canswered.filter (· != i) },
+        ({ st with cwait := some a, ccid := i, cpend := st.cpend ++ [(i, tag)] },
          s!"R ok id={i} | C - | I ret={(Requester.active a).length} | S {sp}")
       | none => (st, s!"R refused | C - | I ret=BadValue | S {if idlen = 0 then "refused ; -" else "ok id=<fresh> ; -"}")
     | _, _ => (st, "bad-op")
@@ -314,7 +317,10 @@ def stepC (st : St) (w : List String) : St × String :=
       -- mpt_command_clear: every registered handler is told that no reply will come
       let calls := (Requester.active (st.cwait.getD [])).map fun e => s!"hr{e.tag.getD 0}(none)"
       let ctext := if calls.isEmpty then "-" else ",".intercalate calls
-      ({ st with cw := none, cc := c', cwait := none, ccid := 0 }, s!"R ok | C {ctext} | I ret=0 | S ok ; *")
+      -- spec: every request that still waits is told once that no reply will come, nobody else is called
+      let scalls := st.cpend.map fun e => s!"hr{e.2}(none)"
+      let stext := if scalls.isEmpty then "-" else ",".intercalate scalls
+      ({ st with cw := none, cc := c', cwait := none, ccid := 0, cpend := [] }, s!"R ok | C {ctext} | I ret=0 | S ok ; {stext}")
     | none => (st, "bad-op")
   | _ => (st, "bad-op")
 
@@ -409,7 +415,9 @@ def stepX (st : St) (w : List String) : St × String :=
            s!"R ok | C {fmtCallsX calls} | I ret=0 rounds=0 waiting={waitingOf x'} | S ok ; {fmtCallsS scalls}")
         | none => (st, "bad-op")
       | "close", [] =>
-        ({ st with xr := none, xs := {} }, s!"R ok | C {fmtCallsX (Requester.close x)} | I ret=0 | S ok ; *")
+        let scalls := sp.pending.map fun e => s!"h{e.2}(none)"
+        ({ st with xr := none, xs := {} },
+         s!"R ok | C {fmtCallsX (Requester.close x)} | I ret=0 | S ok ; {if scalls.isEmpty then "-" else ",".intercalate scalls}")
       | _, _ => (st, "bad-op")
   | _ => (st, "bad-op")
 
@@ -465,14 +473,57 @@ def step (st : St) (w : List String) : St × String :=
       let ans := nextAns st
       match op, args with
       | "arm", [h] =>
-        match parseHex h with
-        | some bytes =>
-          if !c.owner then (st, "bad-op") else
-          let sp := if bytes.length ≤ s.w then "ok ; -" else "refused ; -"
+        match parseData h with
+        | some (b, n) =>
+          if !c.owner ∨ n > 70000 then (st, "bad-op") else
+          let bytes := b.getD (List.replicate n 0)
+          -- spec: a request that still waits for its answer may not be overwritten (it would never be answered);
+          -- otherwise the id is taken iff it fits the header.  The context itself must stay intact.
+          let sp := if s.attached ∧ s.cur.isSome then "refused ctx=intact ; -"
+            else if !s.attached ∧ s.cur.isSome then "refused ctx=intact ; - || ok ctx=intact ; -"
+            else if bytes.length ≤ s.w then "ok ctx=intact ; -" else "refused ctx=intact ; -"
           let (ret, c') := Reply.arm c bytes
           let s' := if ret < 0 then s else { s with cur := if bytes.isEmpty then none else some bytes }
-          ({ st with c := some c', s := s' }, line (if ret < 0 then "refused" else "ok") "-" (errName ret) sp)
+          ({ st with c := some c', s := s' }, line (if ret < 0 then "refused ctx=intact" else "ok ctx=intact") "-" (errName ret) sp)
         | none => (st, "bad-op")
+      | "probe", [] =>
+        if !c.owner then (st, "bad-op") else
+        let t := "ok types=8208 conv0=0,130 unknown=BadType clone=no ctx=intact"
+        (st, line t "-" "0" s!"{t} ; -")
+      | "reref", [] =>
+        if !c.owner then (st, "bad-op") else
+        let alts : List ReplySpec.Alt :=
+          match s.attached, s.cur with
+          | true, some id => [(true, [⟨ReplySpec.mark id, none, ans⟩])]
+          | _, _ => [(true, [])]
+        let c' := Reply.reref c (ansCode ans)
+        let calls := newCalls c c'
+        ({ st with c := some c', s := { s with cur := if s.attached ∧ ans then none else s.cur, attached := false },
+                   sched := popSched st calls.length },
+         line "ok" (fmtCalls (callsOf calls)) "0" (fmtAlts "ok" alts))
+      | "creply", [cs, h] =>
+        match cs.toInt?, parseHex h with
+        | some code, some text =>
+          if !c.owner ∨ cs.startsWith "+" ∨ code < -1000 ∨ code > 1000 ∨ text.length > 600 ∨ text.contains 0 then (st, "bad-op") else
+          if code < -128 ∨ code > 127 then (st, line "refused" "-" "BadArgument" "refused ; -") else
+          -- vsnprintf into char[256]: longer texts are cut to 255 characters plus the terminator
+          let txt := if text.length ≥ 256 then text.take 255 ++ [0] else text
+          let msg : Option (List Byte) := some ([1, argByte code] ++ txt)
+          let alts := ReplySpec.answerAlts s.attached s.cur msg ans
+          let (ret, c') := Reply.reply c msg (ansCode ans)
+          let calls := newCalls c c'
+          let s' := if s.attached ∧ s.cur.isSome ∧ ans then { s with cur := none } else s
+          ({ st with c := some c', s := s', sched := popSched st calls.length },
+           line (if ret < 0 then "refused" else "ok") (fmtCalls (callsOf calls)) (errName (if ret < 0 then ret else 0)) (fmtAlts "ok" alts))
+        | _, _ => (st, "bad-op")
+      | "lreply", [cs, h] =>
+        -- no reply context: nobody to answer, the text is only logged; never a transport call
+        match cs.toInt?, parseHex h with
+        | some code, some text =>
+          if !c.owner ∨ cs.startsWith "+" ∨ code < -1000 ∨ code > 1000 ∨ text.length > 600 ∨ text.contains 0 then (st, "bad-op") else
+          if code < -128 ∨ code > 127 then (st, line "refused" "-" "BadArgument" "refused ; -") else
+          if text.isEmpty then (st, line "ok" "-" "0" "ok ; -") else (st, line "logged" "-" "1" "logged ; -")
+        | _, _ => (st, "bad-op")
       | "reply", [m] =>
         match parseMsg m with
         | some msg =>
